@@ -7,12 +7,20 @@ object the function has established to be in the model (a dominating ``if X not 
 Writes through callees count (effect summaries).  Boolean flags assigned constants are propagated
 along the path, so ``found = True ... if not found: raise`` is recognised as infeasible.
 Only explicit ``raise`` statements count (implicit exceptions are outside the rule).
+
+R5' PRECOND  A Model mutator that calls another raising Model mutator once per element of an asset's
+own ``associations`` list must iterate a duplicate-free collection: add_association lists a
+reflexive association once per field, so the raw list can name the same association twice - the
+first call removes it (or the asset from it), the second call hits the callee's precondition
+``raise`` with the model already half-modified.  Accepted: a list built by a not-in-guarded append,
+``set(...)`` / ``dict.fromkeys(...)``.
 """
 from __future__ import annotations
 
 import ast
 
-from ..core import stmt_text
+from ..core import stmt_text, own_nodes
+from ..idioms import append_loops, membership, is_name, snapshot_of
 from ..report import Inst
 
 RULE = 'R5'
@@ -139,4 +147,77 @@ def run(ctx) -> list[Inst]:
                          f"'{stmt_text(r.ast)}' at line {r.lineno} can still be reached afterwards: "
                          f"a rejected operation leaves a trace"),
                     file=rel, line=e.node.lineno, props=PROPS))
+    insts += _precond(ctx)
+    return insts
+
+
+def _dedup_source(f, cfg, name, at):
+    """is local `name` (at CFG node `at`) a duplicate-free rebuild of another collection?"""
+    defs = cfg.reaching(at, name)
+    for d in defs:
+        a = d.ast
+        if d.kind == 'stmt' and isinstance(a, ast.Assign) and isinstance(a.value, ast.Call):
+            c = a.value
+            txt = stmt_text(c)
+            if 'dict.fromkeys' in txt or (isinstance(c.func, ast.Name) and c.func.id in ('set', 'frozenset')):
+                return True
+    for lp in append_loops(f.node.body):
+        if lp['dst'] == name and lp['op'] == 'append' and lp['cond'] is not None:
+            m = membership(lp['cond'], lp['var'])
+            if m is not None and m[0] is False and m[2] == 'member' and is_name(m[1], name):
+                return True
+    return False
+
+
+def _precond(ctx):
+    prog, an = ctx.prog, ctx.an
+    insts = []
+    for fname in MUTATORS:
+        f = prog.func(fname)
+        cfg = ctx.cfg(f)
+        env = prog.env(f)
+        R = ctx.R(f)
+        rel = f.module.relpath
+        for h in [n for n in cfg.nodes if n.kind == 'for']:
+            it = h.ast.iter
+            base = snapshot_of(it) or it
+            paths = R.paths(base, h)
+            raw_assoc_list = any(p.steps and p.steps[-1] == 'associations' and p.root[0] == 'param'
+                                 and p.root[1] != f.self_name for p in paths)
+            dedup = isinstance(it, ast.Name) and _dedup_source(f, cfg, it.id, h)
+            if not raw_assoc_list and not dedup:
+                continue
+            # raising, writing Model callee invoked in the body
+            for n in cfg.nodes:
+                l = n.loop
+                inside = False
+                while l is not None:
+                    inside = inside or l is h
+                    l = l.loop
+                if not inside or n.kind != 'stmt':
+                    continue
+                for c in ast.walk(n.ast):
+                    if not isinstance(c, ast.Call):
+                        continue
+                    res = env.resolve_call(c)
+                    if res[0] != 'func' or res[1].cls is None or res[1].cls.name != 'Model':
+                        continue
+                    callee = res[1]
+                    ccfg = ctx.cfg(callee)
+                    raises = [x for x in ccfg.nodes if x.kind == 'stmt' and isinstance(x.ast, ast.Raise)]
+                    writes = [e for e in an.of(callee).effects if e.path.root[0] == 'param']
+                    if not raises or not writes:
+                        continue
+                    construct = f"PRECOND: {callee.short} called once per DISTINCT element of {stmt_text(base)}"
+                    if dedup:
+                        insts.append(Inst(RULE, fname, construct, 'ok', msg='iterates a de-duplicated list',
+                                          file=rel, line=h.lineno, props=PROPS))
+                    else:
+                        insts.append(Inst(
+                            RULE, fname, construct, 'violation',
+                            msg=(f"'{stmt_text(c, 80)}' runs for every entry of '{stmt_text(it)}', and an asset's "
+                                 f"associations list names a reflexive association once per field: the first call "
+                                 f"already removes it, the second raises ({len(raises)} precondition raise(s) in "
+                                 f"{callee.short}) after the model was modified - remove_asset fails half-way"),
+                            file=rel, line=c.lineno, props=PROPS))
     return insts
